@@ -14,7 +14,7 @@ RULE = ('generators: Mersenne Twister, default, lc_2exp (several a,c,m2exp), lc_
         'urandomm/randomb/rrandom, gmp_urandomb_ui/urandomm_ui, mpf_urandomb (value in [0,1), format by the driver monitor) over bit counts 0,1,31..33,'
         '63..65,127..129,19936..19938,10^5 and moduli 1,2,3,2^k,2^k+-1, all-ones, multi-limb with top limb 1; sequence equality for two states with the '
         'same algorithm and seed and for a state and its gmp_randinit_set copy taken at an arbitrary point of a mixed request history (the original '
-        'must be unaffected by re-initialising the copy); uniformity batteries of N draws (2^15 quick, 2^17 thorough): per-bit one counts (|z|>8 '
+        'must be unaffected by re-initialising the copy); lc_2exp with m2exp 32..300 x every request size 1..420 (1399 thorough) drawn by two same-seed states into destinations with different old contents; uniformity batteries of N draws (2^15 quick, 2^17 thorough): per-bit one counts (|z|>8 '
         'fails), top-8-bit buckets and urandomm buckets with exact expected counts (chi-square z>8 fails), and for LC generators no output bit may be '
         'exactly periodic with a power-of-two period <= 2^12. distinct = (test, generator, request shape)')
 ASSUMPTIONS = ['fixed thresholds: a correct generator trips a |z|>8 comparison with probability < 1e-14 each', 'autocorrelation is deliberately not used for verdicts (small LC generators have genuine structure)']
@@ -34,6 +34,8 @@ def seed_cmds(r, slot, seed):
 GENS = ['mt', 'default', 'lcs:16', 'lcs:32', 'lcs:64', 'lcs:128', 'lc:5851f42d4c957f2d:1:64', 'lc:19660d:3c6ef35f:32', 'lc:2875a2e7b175:2739110:100']
 SEEDS = [0, 1, 1 << 32, M, (1 << 200) + 12345, 42]
 BITS = [0, 1, 31, 32, 33, 63, 64, 65, 127, 128, 129, 700, 19936, 19937, 19938]
+
+LCX = [32, 64, 100, 128, 130, 156, 196, 200, 256, 300]
 
 def request(r, slot, kinds=None):
     """one random request on R<slot>: (cmd, checker(values)->error or None, label)"""
@@ -87,6 +89,13 @@ def specs(rng, tier, wid, nw, env):
                 if k % nw == wid: yield ('repro', g, sd, rng.getrandbits(48))
                 k += 1
                 if k % nw == wid: yield ('copy', g, sd, rng.getrandbits(48))
+    # LC generators of every chunk geometry (m2exp/2 bits per step: aligned, unaligned, wider than a limb) x every request size: two states
+    # with the same seed draw into destinations holding different old contents (all ones / zero / fenced limb buffers); any difference means
+    # the result depends on something other than the state (A39: a stale destination limb kept when the last chunk was a multiple of 64 bits)
+    for m2 in LCX:
+        for nb in (range(1, 421) if q else range(1, 1400)):
+            k += 1
+            if k % nw == wid: yield ('lcsweep', m2, nb, rng.getrandbits(48))
     # a copy taken after exactly k 32-bit words have been consumed, for every k across two Mersenne Twister buffer refills
     for g in ('mt', 'default'):
         for kk in (range(0, 1300) if q else range(0, 2600)):
@@ -170,6 +179,26 @@ def build(spec, env):
                     out.append(('%s:%s-sequences-differ' % (kind, g.split(':')[0]), 'gen=%s seed=%s at request %s: %s vs %s' % (g, hx(sd), lab, a[0][:40], b[0][:40]))); break
             return out
         return Case(cmds, check, 2 * len(pairs), (kind, g, sd.bit_length(), n1))
+    if kind == 'lcsweep':
+        _, m2, nb, _s = spec
+        a = r.getrandbits(m2 - 3) * 8 + 5; c = r.getrandbits(r.choice([1, 30, 64])) | 1; sd = r.choice(SEEDS + [r.getrandbits(m2 + 10)])
+        nl = (nb + 63) // 64; ones = (1 << (64 * (nl + 2))) - 1
+        cmds = []
+        for slot in (0, 1): cmds += ['z Z9 %s' % hx(a), 'c gmp_randinit_lc_2exp R%d Z9 #%d #%d' % (slot, c, m2), 'z Z8 %s' % hx(sd), 'c gmp_randseed R%d Z8' % slot]
+        pairs = []
+        for rnd in range(2):
+            cmds += ['z Z1 %s' % hx(ones), 'c mpz_urandomb Z1 R0 #%d' % nb]; ia = len(cmds) - 1
+            cmds += ['z Z2 0', 'c mpz_urandomb Z2 R1 #%d' % nb]; pairs.append((ia, len(cmds) - 1, 'mpz_urandomb'))
+            cmds += ['l 0 %d %s' % (nl, hx((1 << (64 * nl)) - 1)), 'c mpn_urandomb L0:%d R0 #%d' % (nl, nb)]; ia = len(cmds) - 1
+            cmds += ['l 1 %d 0' % nl, 'c mpn_urandomb L1:%d R1 #%d' % (nl, nb)]; pairs.append((ia, len(cmds) - 1, 'mpn_urandomb'))
+        def check(rep, pairs=pairs, m2=m2, nb=nb):
+            out = []
+            for ia, ib, fn in pairs:
+                x = split_reply(rep[ia])[0][0].split('=')[-1]; y = split_reply(rep[ib])[0][0].split('=')[-1]
+                if I(x) >= (1 << nb): out.append(('%s:out-of-range' % fn, 'lc m2exp=%d nbits=%d value=%s' % (m2, nb, x[:40])))
+                if I(x) != I(y): out.append(('repro:lc-result-depends-on-old-destination-contents:%s' % fn, 'lc m2exp=%d nbits=%d same seed: %s (destination was all ones) vs %s (was zero)' % (m2, nb, x[:50], y[:50])))
+            return out[:3]
+        return Case(cmds, check, 8, ('lcsweep', m2, nb))
     if kind == 'copyat':
         _, g, kk, sd, _s = spec
         cmds = gen_init(r, g, 0) + seed_cmds(r, 0, sd)
